@@ -100,6 +100,16 @@ class Spike(Case):
                 if self.params["fail"]:
                     v["fail"] = f_
                 yield v
+        # float32 data of mixed magnitude: the spike magnitudes are not representable in float32
+        big = float(2**24 + 2)
+        for xs in ([1.0, big, 1.0, 3.0], [big, 1.0, big, big], [3.0, 1.0, big, 1.0, 3.0]):
+            for s_, f_ in ((16777216, 16777216.5), (16777215.5, 16777217), (8388608, 16777216.25)):
+                v = {"n": len(xs), "x": list(xs), "dtype": "float32", "keep": 1}
+                if self.params["sus"]:
+                    v["sus"] = s_
+                if self.params["fail"]:
+                    v["fail"] = f_
+                yield v
 
 
 def cases():
